@@ -10,6 +10,7 @@ Two query families, both driven by the MIR of `MultiLineWriter::{with_ending,wri
 """
 import itertools
 import json
+import os
 import time
 import z3
 
@@ -130,59 +131,89 @@ def atoms_of(snap, m_atom_names):
 
 
 class StepChecker:
-    """Evaluates Legal (C05, C06, C07, C19) and Inv' on one finished path."""
+    """Evaluates Legal (C05, C06, C07, C19) and Inv' on one finished step.
 
-    def __init__(self, ex, st: WriterState, op, mlen=None, mname='m'):
-        self.ex, self.st, self.op, self.mlen, self.mname = ex, st, op, mlen, mname
+    `pre_sym` is what the BufWriter held before the step: ('L',) in the inductive step (an
+    abstract run of whole lines, `b` bytes, possibly 0) or the concrete atom tuple
+    (m0, ending, m1, ending, ...) in bounded histories. `wire` are this step's socket events.
+    """
 
-    def run(self, result, status, findings, obligations):
-        ex, st = self.ex, self.st
-        cap, elen, b = st.cap, st.elen, st.b
-        mlen = self.mlen
-        pre_has_L = True
-        wire = [e for e in ex.events if e[0] == 'wire']
-        w2, cap2, content2 = st.post(ex)
-        b2 = content2.total()
+    def __init__(self, ex, op, cap, elen, b, pre_sym, mlen=None, mname='m', label=''):
+        self.ex, self.op, self.cap, self.elen, self.b = ex, op, cap, elen, b
+        self.pre_sym, self.mlen, self.mname, self.label = tuple(pre_sym), mlen, mname, label
+
+    def run(self, result, status, wire, post, findings, obligations, check_inv=True):
+        ex = self.ex
+        cap, elen, b, mlen, pre = self.cap, self.elen, self.b, self.mlen, self.pre_sym
+        m, e = self.mname, 'ending'
+        w2, cap2, content2 = post if post is not None else (None, None, None)
+
+        pending = []
 
         def oblige(prop, clause, cond, detail):
-            """cond must hold on this path; query pc ∧ ¬cond"""
             obligations[0] += 1
             c = z3.simplify(cond)
             if z3.is_true(c):
                 return
-            r = ex.check(z3.Not(c))
-            if r == 'unsat':
+            pending.append((prop, clause, c, detail))
+
+        def record(prop, clause, c, detail):
+            findings.append({'prop': prop, 'clause': clause, 'detail': detail, 'neg': z3.Not(c), 'pc': list(ex.assumptions) + list(ex.pc),
+                             'events': list(ex.events), 'op': self.op, 'label': self.label,
+                             'ops': list(ex.out.get('ops', [])), 'start': ex.out.get('start', 'inv1'),
+                             'trail': [list(t) for t in ex.trail[:ex.pos]]})
+
+        def discharge():
+            """One query for the conjunction; individual queries only if it can be violated."""
+            if not pending or getattr(ex, 'enumerating', False):
+                del pending[:]
                 return
+            conj = z3.And(*[c for _, _, c, _ in pending]) if len(pending) > 1 else pending[0][2]
+            r = ex.check(z3.Not(conj), important=True)
             if r == 'unknown':
-                raise Unsupported('solver unknown on obligation %s/%s' % (prop, clause))
-            m = ex.model(z3.Not(c))
-            findings.append((prop, clause, detail, m, list(ex.events), self.op))
+                raise Unsupported('solver unknown on the obligations of %s' % self.label)
+            if r == 'sat':
+                for prop, clause, c, detail in pending:
+                    r1 = ex.check(z3.Not(c), important=True)
+                    if r1 == 'unknown':
+                        raise Unsupported('solver unknown on obligation %s/%s' % (prop, clause))
+                    if r1 == 'sat':
+                        record(prop, clause, c, detail)
+            del pending[:]
+
+        try:
+            self._run(result, status, wire, post, oblige, check_inv)
+        finally:
+            discharge()
+
+    def _run(self, result, status, wire, post, oblige, check_inv):
+        ex = self.ex
+        cap, elen, b, mlen, pre = self.cap, self.elen, self.b, self.mlen, self.pre_sym
+        m, e = self.mname, 'ending'
+        w2, cap2, content2 = post if post is not None else (None, None, None)
 
         if status == 'panic':
-            oblige('C20', 'no-panic', z3.BoolVal(False), 'panic %r in %s' % (result, self.op))
-            oblige('C07', 'no-panic', z3.BoolVal(False), 'panic %r in %s' % (result, self.op))
+            for prop in ('C20', 'C07'):
+                oblige(prop, 'no-panic', z3.BoolVal(False), 'panic %r in %s' % (result, self.op))
             return
         if status != 'ok':
             return
-
-        m, e = self.mname, 'ending'
-        fits_empty = z3.ULE(mlen + elen, cap) if mlen is not None else None
 
         # ---- C05: framing of every attempted socket write -----------------------------
         for ev in wire:
             _, snap, total, outcome, etok, how = ev
             sym = atoms_of(snap, None)
-            if sym == ('L',):
+            if pre and sym == pre:
                 legal = z3.And(z3.UGT(b, 0), z3.ULE(b, cap))
-            elif sym == ('L', m, e):
+            elif mlen is not None and sym == pre + (m, e):
                 legal = z3.ULE(b + mlen + elen, cap)
-            elif sym == (m, e):
+            elif mlen is not None and sym == (m, e):
                 legal = z3.ULE(mlen + elen, cap)
-            elif sym == (m,):
-                # alone, unmodified, unterminated: only if it cannot fit into an empty buffer
-                # with its terminator; with an empty terminator `m` is itself a complete line
+            elif mlen is not None and sym == (m,):
+                # alone, unmodified, unterminated: only if it cannot fit into an empty buffer with its
+                # terminator; with an empty terminator `m` is itself a complete line
                 legal = z3.Or(z3.UGT(mlen + elen, cap), z3.And(elen == 0, z3.ULE(mlen, cap)))
-            elif sym == ('L', m):
+            elif mlen is not None and pre and sym == pre + (m,):
                 legal = z3.And(elen == 0, z3.ULE(b + mlen, cap))
             else:
                 legal = z3.BoolVal(False)
@@ -190,24 +221,24 @@ class StepChecker:
             oblige('C05', 'non-empty-write', z3.UGT(total, 0), 'empty socket write via %s' % how)
 
         okev = [atoms_of(ev[1], None) for ev in wire if ev[3] == 'ok']
-        sent_L = sum(1 for s in okev if 'L' in s)
+        sent_L = sum(1 for s in okev if pre and s[:len(pre)] == pre)
         sent_m = sum(1 for s in okev if m in s)
         post_sym = atoms_of(('content', content2.prefix_bytes, content2.chunks), None)
-        post_has_L = 'L' in post_sym
+        post_has_L = bool(pre) and post_sym[:len(pre)] == pre
         post_has_m = m in post_sym
+        stray = [a for a in post_sym[len(pre) if post_has_L else 0:] if a not in (m, e)]
 
-        # ---- C06 / C07: conservation of what was buffered before ------------------------
-        # (b == 0 means L is empty: then nothing is to be conserved)
         oblige('C07', 'no-duplicate', z3.BoolVal(sent_L <= 1 and sent_m <= 1), 'a metric was written twice: %r' % (okev,))
         if self.op == 'drop':
             pass
         elif sent_L == 0:
-            oblige('C06', 'buffered-kept', z3.Or(b == 0, z3.BoolVal(post_has_L and post_sym[0] == 'L')),
+            oblige('C06', 'buffered-kept', z3.Or(b == 0, z3.BoolVal(post_has_L)),
                    'earlier metrics neither written nor still buffered (post content %r)' % (post_sym,))
         else:
-            oblige('C06', 'buffered-once', z3.BoolVal(not post_has_L), 'earlier metrics written and still buffered')
+            oblige('C06', 'buffered-once', z3.BoolVal(not post_has_L and not stray), 'earlier metrics written and still buffered (%r)' % (post_sym,))
 
         res_ok = is_variant(result, 'Ok')
+        attempt_errs = [ev[4] for ev in wire if ev[3] == 'err']
         if self.op == 'write':
             if res_ok:
                 n = result.fields[0]
@@ -215,16 +246,15 @@ class StepChecker:
                 oblige('C06', 'accepted-exactly-once', z3.BoolVal((sent_m == 1) != post_has_m),
                        'Ok but metric is %s' % ('both written and buffered' if sent_m and post_has_m else 'neither written nor buffered'))
                 if post_has_m:
-                    tail = post_sym[-2:] if len(post_sym) >= 2 else post_sym
-                    whole = (tail == (m, e)) and post_sym.count(m) == 1 and post_sym.count(e) == 1
-                    oblige('C05', 'buffer-whole-lines', z3.Or(z3.BoolVal(whole), z3.And(elen == 0, z3.BoolVal(post_sym[-1:] == (m,)))),
-                           'post buffer content %r is not whole lines' % (post_sym,))
+                    rest = post_sym[len(pre):] if post_has_L else post_sym
+                    whole = rest == (m, e)
+                    oblige('C05', 'buffer-whole-lines', z3.Or(z3.BoolVal(whole), z3.And(elen == 0, z3.BoolVal(rest == (m,)))),
+                           'buffer content after the write, %r, is not a run of whole lines' % (post_sym,))
             else:
                 etok = result.fields[0]
-                attempt_errs = [ev[4] for ev in wire if ev[3] == 'err']
-                oblige('C07', 'error-is-sockets', z3.BoolVal(any(etok is a or (isinstance(etok, Native) and isinstance(a, Native) and etok.ident == a.ident) for a in attempt_errs)),
+                oblige('C07', 'error-is-sockets', z3.BoolVal(any(isinstance(a, Native) and isinstance(etok, Native) and a.ident == etok.ident for a in attempt_errs)),
                        'write returned an error that is not the error of a failed socket write of this call')
-                oblige('C07', 'err-not-buffered', z3.BoolVal(not post_has_m and e not in post_sym),
+                oblige('C07', 'err-not-buffered', z3.BoolVal(not post_has_m and (e not in (post_sym[len(pre):] if post_has_L else post_sym))),
                        'write returned Err but (part of) its metric stays buffered: %r' % (post_sym,))
                 oblige('C07', 'err-not-sent', z3.BoolVal(sent_m == 0), 'write returned Err but its metric was written')
             # ---- C19 greedy packing ---------------------------------------------------
@@ -239,33 +269,25 @@ class StepChecker:
                         oblige('C19', 'pack-in-order', z3.Not(fits_exact),
                                'earlier metrics flushed without a metric that still fit exactly (%r)' % (sym,))
         else:
-            # flush / drop
+            b2 = content2.total()
             if self.op == 'flush':
                 if res_ok:
-                    oblige('C06', 'flush-empties', z3.And(z3.BoolVal(not post_has_L or True), b2 == 0),
-                           'successful flush left bytes buffered')
+                    oblige('C06', 'flush-empties', b2 == 0, 'successful flush left bytes buffered')
                     oblige('C06', 'flush-sends-all', z3.Or(b == 0, z3.BoolVal(sent_L == 1)), 'successful flush did not write the buffered metrics')
                 else:
                     etok = result.fields[0]
-                    attempt_errs = [ev[4] for ev in wire if ev[3] == 'err']
                     oblige('C07', 'error-is-sockets', z3.BoolVal(any(isinstance(a, Native) and a.ident == etok.ident for a in attempt_errs)),
                            'flush returned an error that is not the error of a failed socket write of this call')
             if self.op == 'drop':
-                # nothing may stay behind unless the socket refused it
-                any_err = any(ev[3] == 'err' for ev in wire)
+                any_err = bool(attempt_errs)
                 oblige('C06', 'drop-flushes', z3.Or(b == 0, z3.BoolVal(sent_L == 1 or any_err)), 'drop did not write the buffered metrics')
             oblige('C06', 'empty-flush-silent', z3.Or(z3.UGT(b, 0), z3.BoolVal(len(wire) == 0)), 'flush of an empty buffer wrote to the socket')
 
         # ---- Inv' ----------------------------------------------------------------------
-        if self.op != 'drop':
-            obligations[0] += 1
+        if check_inv and self.op != 'drop':
+            b2 = content2.total()
             post_inv = z3.And(z3.ULE(b2, cap2), z3.Or(w2 == b2, z3.And(b2 == 0, w2 == cap2)), cap2 == cap)
-            r = ex.check(z3.Not(post_inv))
-            if r == 'sat':
-                mdl = ex.model(z3.Not(post_inv))
-                findings.append(('INV', 'inductive', 'representation invariant not preserved by %s' % self.op, mdl, list(ex.events), self.op))
-            elif r == 'unknown':
-                raise Unsupported('solver unknown on invariant')
+            oblige('INV', 'inductive', post_inv, 'representation invariant not preserved by %s' % self.op)
 
 
 # ------------------------------------------------------------------------------------
@@ -331,7 +353,9 @@ def inductive(prog, timeout_ms=60000, seed=0):
                 st.cell.v = Agg('struct', 'MultiLineWriter', None,
                                 (Int(written, 'usize'), Int(cap, 'usize'), UNIT,
                                  new_bufwriter(Int(cap, 'usize'), st.inner_cell, Content()), st.ending))
-            StepChecker(ex, st, op, mlen if op == 'write' else None).run(result, status, findings, obligations)
+            wire = [e for e in ex.events if e[0] == 'wire']
+            StepChecker(ex, op, cap, elen, b, ('L',), mlen if op == 'write' else None).run(
+                result, status, wire, st.post(ex), findings, obligations)
             reach['any'] = True
 
         ex.run(entry, on_path)
@@ -353,7 +377,8 @@ def inductive(prog, timeout_ms=60000, seed=0):
 
     def on0(ex, result, status):
         if status != 'ok':
-            findings.append(('C20', 'no-panic', 'constructor: %s %r' % (status, result), None, list(ex.events), 'new'))
+            findings.append({'prop': 'C20', 'clause': 'no-panic', 'detail': 'constructor: %s %r' % (status, result), 'neg': z3.BoolVal(True),
+                             'pc': list(ex.pc), 'events': list(ex.events), 'op': 'new', 'label': 'base', 'trail': []})
             return
         obligations[0] += 1
         w0 = result.fields[0].t
@@ -364,7 +389,8 @@ def inductive(prog, timeout_ms=60000, seed=0):
         cond = z3.And(inv(c0, ending.length(), w0, b0), c0 == cap, bw.state[0].t == cap, ending.length() == elen,
                       z3.BoolVal(ending.key() == (('str', 'ending'),)))
         if ex.check(z3.Not(cond)) != 'unsat':
-            findings.append(('INV', 'base', 'constructor does not establish the invariant', ex.model(z3.Not(cond)), [], 'new'))
+            findings.append({'prop': 'INV', 'clause': 'base', 'detail': 'constructor does not establish the invariant', 'neg': z3.Not(cond),
+                             'pc': list(ex.pc), 'events': [], 'op': 'new', 'label': 'base', 'trail': []})
         base['ok'] = True
 
     ex.run(entry0, on0)
@@ -376,6 +402,121 @@ def inductive(prog, timeout_ms=60000, seed=0):
     return findings, info
 
 
+def small_model(constraints, size_terms, limits=(16, 64, 512, 1 << 20)):
+    """A model of `constraints` preferring small values for `size_terms` (replayability)."""
+    from .smt import Smt
+    for lim in limits + (None,):
+        smt = Smt(quick_ms=3000, timeout_ms=60000)
+        for c in constraints:
+            smt.add(c)
+        extra = [z3.ULE(t, lim) for t in size_terms] if lim is not None else []
+        m = smt.model(extra)
+        if m is not None:
+            return m
+    return None
+
+
+def bmc(prog, K=3, fault_budget=1, timeout_ms=60000, seed=0, max_paths=60000, with_drop=True, opseq=None,
+        prefix=None, split_depth=None, start='init'):
+    """Bounded histories from the real constructor: every sequence of <= K write/flush ops (+ final drop),
+    all sizes symbolic, at most `fault_budget` failing socket writes per history."""
+    field_order_check(prog)
+    findings = []
+    obligations = [0]
+    cap, elen = z3.BitVec('cap', 64), z3.BitVec('elen', 64)
+    mlens = [z3.BitVec('mlen%d' % i, 64) for i in range(K)]
+    ex = make_explorer(prog, timeout_ms, seed)
+    ex.max_paths = max_paths
+    ex.fault_budget = fault_budget
+    ex.assumptions = [z3.ULE(cap, ISIZE_MAX), z3.ULE(elen, ISIZE_MAX)] + [z3.And(z3.UGE(x, 1), z3.ULE(x, ISIZE_MAX)) for x in mlens]
+    written0, b0 = z3.BitVec('written', 64), z3.BitVec('b', 64)
+    ctrs = [z3.BitVec('ctr%d' % i, 64) for i in range(3)]
+    if start == 'inv':
+        ex.assumptions += [inv(cap, elen, written0, b0)] + [z3.ULT(c, 1 << 62) for c in ctrs]
+    wfn, ffn = mlw_fn(prog, 'write'), mlw_fn(prog, 'flush')
+    ctor = prog.find_impl_method('with_ending', 'MultiLineWriter<T>')
+    histories = [0]
+
+    def snapshot(cell):
+        v = cell.v
+        bwv = v.fields[3]
+        return v.fields[0].t, v.fields[1].t, bwv.state[2]
+
+    def entry(ex):
+        if start == 'inv':
+            cell = WriterState(ex, cap, elen, written0, b0, ctrs).cell
+        else:
+            w = Native('EnvWriter', {'faults': True}, fresh_id())
+            end = Str((Atom('ending', elen),), 'str')
+            mlw = ex.call(ctor, [w, Int(cap, 'usize'), end])
+            cell = Cell(mlw, 'mlw')
+        ex.out['start'] = start
+        ops = []
+        ex.out['ops'] = ops
+        for i in range(K if opseq is None else len(opseq)):
+            if opseq is None:
+                kind = ex.nondet(3, 'op')      # 0 write, 1 flush, 2 stop
+            else:
+                kind = 0 if opseq[i] == 'w' else 1
+            if kind == 2:
+                break
+            _, _, pre = snapshot(cell)
+            pre_sym = atoms_of(('content', pre.prefix_bytes, pre.chunks), None)
+            b = pre.total()
+            ev0 = len(ex.events)
+            status, result = 'ok', None
+            try:
+                if kind == 0:
+                    ops.append(('write', i))
+                    result = ex.call(wfn, [Ref(cell, (), True), Str((Atom('m%d' % i, mlens[i]),), 'bytes')])
+                else:
+                    ops.append(('flush', i))
+                    result = ex.call(ffn, [Ref(cell, (), True)])
+            except Unwinding as u:
+                status, result = 'panic', u.payload
+            wire = [e for e in ex.events[ev0:] if e[0] == 'wire']
+            ops[-1] = ops[-1] + (status, 'ok' if is_variant(result, 'Ok') else 'err')
+            StepChecker(ex, 'write' if kind == 0 else 'flush', cap, elen, b, pre_sym, mlens[i] if kind == 0 else None,
+                        'm%d' % i, label='step %d' % i).run(result, status, wire, snapshot(cell) if status == 'ok' else None,
+                                                           findings, obligations, check_inv=False)
+            if status == 'panic':
+                return 'panic'
+        if with_drop:
+            _, _, pre = snapshot(cell)
+            pre_sym = atoms_of(('content', pre.prefix_bytes, pre.chunks), None)
+            b = pre.total()
+            ev0 = len(ex.events)
+            v = cell.v
+            cell.v = MOVED
+            ops.append(('drop', len(ops)))
+            status = 'ok'
+            try:
+                ex.drop_value(v)
+            except Unwinding as u:
+                status = 'panic'
+            wire = [e for e in ex.events[ev0:] if e[0] == 'wire']
+            StepChecker(ex, 'drop', cap, elen, b, pre_sym, None, label='final drop').run(
+                UNIT, status, wire, (None, None, Content()), findings, obligations, check_inv=False)
+        return 'done'
+
+    def on_path(ex, result, status):
+        histories[0] += 1
+        if status == 'panic':
+            findings.append({'prop': 'C20', 'clause': 'no-panic', 'detail': 'panic %r' % (result,), 'neg': z3.BoolVal(True),
+                             'pc': list(ex.pc), 'events': list(ex.events), 'op': 'ctor', 'label': 'ctor', 'trail': []})
+
+    if split_depth is not None:
+        ex.enumerating = True
+        pref, done = ex.enumerate_prefixes(entry, split_depth)
+        return pref + done
+    ex.run(entry, on_path, prefix=prefix)
+    for f in findings:
+        f.setdefault('source', 'bmc')
+    ex.stats.backend = dict(ex.smt.counts)
+    ex.stats.backend_time = dict(ex.smt.time)
+    return findings, {'histories': histories[0], 'obligations': obligations[0], 'stats': [ex.stats], 'K': K, 'fault_budget': fault_budget}
+
+
 def model_values(m, names=('cap', 'elen', 'written', 'b', 'mlen')):
     out = {}
     if m is None:
@@ -383,3 +524,181 @@ def model_values(m, names=('cap', 'elen', 'written', 'b', 'mlen')):
     for n in names:
         out[n] = m.eval(z3.BitVec(n, 64), model_completion=True).as_long()
     return out
+
+
+# ------------------------------------------------------------------------------------
+# stub differential: the BufWriter model vs the real std type (table from `replay model-diff`)
+# ------------------------------------------------------------------------------------
+
+def bufwriter_model_diff(prog, table):
+    """Run the Python BufWriter stub concretely on every row of the native table. Returns (#rows, mismatches)."""
+    max_len = table['max_len']
+    mismatches = []
+    rows = table['rows']
+    ex = make_explorer(prog)
+    for row in rows:
+        cap, ops, faults = row['cap'], row['ops'], row['faults']
+        got = {}
+
+        def entry(ex):
+            ex.fault_script = list(faults)
+            inner = Cell(Native('EnvWriter', {'faults': True}, fresh_id()), 'env-writer')
+            cell = Cell(new_bufwriter(mk_int(cap, 'usize'), inner), 'bw')
+            res = []
+            marks = []
+            for i, o in enumerate(ops):
+                marks.append(len(ex.events))
+                if o <= max_len:
+                    data = Str((bytes([97 + i % 26]) * o,), 'bytes')
+                    r = env_io.bw_write(ex, [Ref(cell, (), True), data], 'diff')
+                    res.append('ok%d' % r.fields[0].concrete() if is_variant(r, 'Ok') else 'err')
+                else:
+                    r = env_io.bw_flush(ex, [Ref(cell, (), True)], 'diff')
+                    res.append('ok' if is_variant(r, 'Ok') else 'err')
+            marks.append(len(ex.events))
+            v = cell.v
+            cell.v = MOVED
+            ex.drop_value(v)
+            marks.append(len(ex.events))
+            got['res'] = res
+            atts = []
+            for k in range(len(marks) - 1):
+                for ev in ex.events[marks[k]:marks[k + 1]]:
+                    if ev[0] != 'wire':
+                        continue
+                    kind, prefix, chunks = ev[1]
+                    data = b''.join(b''.join(p for p in c.norm()) for c in chunks)
+                    atts.append([k, data.decode('latin1'), ev[3] == 'ok'])
+            got['attempts'] = atts
+            return None
+
+        def on_path(ex, result, status):
+            got['status'] = status
+
+        ex.trail = []
+        ex.run(entry, on_path)
+        if got.get('status') != 'ok' or got.get('res') != row['res'] or got.get('attempts') != row['attempts']:
+            mismatches.append({'row': row, 'model': got})
+    ex.fault_script = None
+    return len(rows), mismatches
+
+
+# ------------------------------------------------------------------------------------
+# counterexample -> native scenario
+# ------------------------------------------------------------------------------------
+
+def ending_for(n):
+    if n == 0:
+        return ''
+    if n == 1:
+        return '\n'
+    if n == 2:
+        return '\r\n'
+    return '#' * (n - 1) + '\n'
+
+
+def scenario_from_finding(f, K):
+    """Turn a BMC finding into a replayable writer scenario (small concrete sizes)."""
+    cap, elen = z3.BitVec('cap', 64), z3.BitVec('elen', 64)
+    mlens = [z3.BitVec('mlen%d' % i, 64) for i in range(K)]
+    m = small_model(f['pc'] + [f['neg']], [cap, elen, z3.BitVec('b', 64)] + mlens)
+    if m is None:
+        return None
+    g = lambda t: m.eval(t, model_completion=True).as_long()
+    capv, elenv = g(cap), g(elen)
+    if capv > (1 << 24) or elenv > 4096:
+        return None
+    ops = []
+    pre_attempts = 0
+    if f.get('start') in ('inv', 'inv1'):
+        bv_, wv_ = g(z3.BitVec('b', 64)), g(z3.BitVec('written', 64))
+        if bv_ > 0:
+            if bv_ <= elenv or bv_ > (1 << 24):
+                return None
+            ops.append({'op': 'write', 'len': bv_ - elenv})
+        elif wv_ != 0:
+            # the one legal desynchronisation: empty terminator, a metric of exactly `cap` bytes written through
+            ops.append({'op': 'write', 'len': capv})
+            pre_attempts = 1
+    for o in f['ops']:
+        if o[0] == 'write':
+            ln = g(mlens[o[1]])
+            if ln > (1 << 24):
+                return None
+            ops.append({'op': 'write', 'len': ln})
+        elif o[0] == 'flush':
+            ops.append({'op': 'flush'})
+        elif o[0] == 'drop':
+            ops.append({'op': 'drop'})
+    # pad so that metric ids (= op indexes) line up with the symbolic names m<i>
+    faults, kinds = [False] * pre_attempts, ['other'] * pre_attempts
+    for ev in f['events']:
+        if ev[0] != 'wire':
+            continue
+        faults.append(ev[3] == 'err')
+        k = 'other'
+        if ev[3] == 'err':
+            kv = m.eval(ev[4].state[1], model_completion=True).as_long()
+            k = 'interrupted' if kv == env_io.EK_INTERRUPTED else ('wouldblock' if kv == env_io.EK_WOULDBLOCK else 'other')
+        kinds.append(k)
+    if not ops or ops[-1]['op'] != 'drop':
+        ops += [{'op': 'flush'}, {'op': 'drop'}]
+    return {'kind': 'writer', 'cap': capv, 'ending': ending_for(elenv), 'ops': ops, 'faults': faults, 'fault_kinds': kinds,
+            'claimed': {'prop': f['prop'], 'clause': f['clause'], 'detail': f['detail'], 'step': f['label']}}
+
+
+def _bmc_job(args):
+    prog, opseq, K, fault_budget, timeout_ms, seed, prefix, start = args
+    t0 = time.time()
+    try:
+        findings, info = bmc(prog, K, fault_budget, timeout_ms, seed, opseq=opseq, prefix=prefix, start=start)
+    except Unsupported as e:
+        return {'opseq': opseq, 'error': str(e)}
+    out = []
+    seen = set()
+    for f in findings:
+        key = (f['prop'], f['clause'], f['label'], f['detail'])
+        if key in seen:
+            continue
+        seen.add(key)
+        sc = scenario_from_finding(f, K)
+        out.append({'prop': f['prop'], 'clause': f['clause'], 'detail': f['detail'], 'label': f['label'], 'scenario': sc})
+    st = info['stats'][0]
+    return {'opseq': opseq, 'findings': out, 'histories': info['histories'], 'obligations': info['obligations'],
+            'queries': st.queries, 'sat': st.sat, 'unsat': st.unsat, 'unknown': st.unknown, 'solver_time': st.solver_time,
+            'backend': st.backend, 'functions': sorted(st.functions), 'stubs': sorted(st.stubs), 'wall': time.time() - t0,
+            'cut_paths': st.cut_paths, 'steps': st.steps}
+
+
+def _bmc_split_job(args):
+    prog, opseq, K, fault_budget, timeout_ms, seed, depth, start = args
+    try:
+        return opseq, bmc(prog, K, fault_budget, timeout_ms, seed, opseq=opseq, split_depth=depth, start=start)
+    except Unsupported as e:
+        return opseq, {'error': str(e)}
+
+
+def bmc_parallel(prog, K, fault_budget, timeout_ms=60000, seed=0, jobs=None, split_depth=12, start='init', min_len=1):
+    """All op sequences over {write, flush} of length 1..K (each followed by the final drop); the decision
+    tree of every sequence is cut at `split_depth` decisions and the subtrees are explored in parallel."""
+    import multiprocessing as mp
+    seqs = []
+    for n in range(min_len, K + 1):
+        for t in itertools.product('wf', repeat=n):
+            if 'w' not in t and n > 1:
+                continue
+            seqs.append(''.join(t))
+    jobs = jobs or max(1, (os.cpu_count() or 4) - 1)
+    ctx = mp.get_context('fork')
+    with ctx.Pool(jobs) as pool:
+        splits = pool.map(_bmc_split_job, [(prog, sq, K, fault_budget, timeout_ms, seed, split_depth, start) for sq in seqs], chunksize=1)
+        work = []
+        for sq, pref in splits:
+            if isinstance(pref, dict):
+                return [{'opseq': sq, 'error': pref['error']}]
+            for pr in pref:
+                work.append((prog, sq, K, fault_budget, timeout_ms, seed, pr, start))
+        # longest sequences first
+        work.sort(key=lambda w: -len(w[1]))
+        res = pool.map(_bmc_job, work, chunksize=1)
+    return res
